@@ -401,7 +401,8 @@ def explore(ui, jax_outs, ort_outs, rtol, atol, base, out_nchw):
     return paths
 
 
-DT = {"bool": real_np.bool_, "i32": real_np.int32, "i64": real_np.int64, "f32": real_np.float32, "f64": real_np.float64}
+DT = {"bool": real_np.bool_, "i32": real_np.int32, "i64": real_np.int64, "f32": real_np.float32, "f64": real_np.float64,
+      "u8": real_np.uint8, "u32": real_np.uint32, "i8": real_np.int8, "f16": real_np.float16}
 
 
 def configs(tier):
@@ -410,6 +411,8 @@ def configs(tier):
         for sj, so in itertools.product(shapes, shapes):
             if tier == "quick" and sj != so and (je, oe) not in (("f32", "f32"), ("i32", "i32")):
                 continue
+            if tier == "quick" and je != oe and not {je, oe} <= {"bool", "i32", "i64", "f32", "f64"}:
+                continue  # the rarer element types: same-type pairs in the quick tier, all pairs thorough
             yield {"jax": [(je, sj)], "ort": [(oe, so)], "nchw": None}
     # output counts
     for nj, no in ((1, 2), (2, 1), (2, 2)):
